@@ -66,7 +66,14 @@ def check_from_hash(cx):
     zs = [(nrm(a_), nrm(v_)) for a_, v_ in _I.stores(fn, cx.F, 'z')]
     want_v = 'from_be_bytes:u64([index($ha, Range::Range{MulWithOverflow(8, %s).0, AddWithOverflow(MulWithOverflow(8, %s).0, 8).0})])' % (I5, I5)
     limb_stores = [(a_, v_) for a_, v_ in zs if 'from_be_bytes' in v_ or '$ha' in v_]
-    cx.add('F-HTR', 'words', bool(limb_stores) and all(v_ == want_v for _, v_ in limb_stores),
+    words_ok = bool(limb_stores) and all(v_ == want_v for _, v_ in limb_stores)
+    if not words_ok:
+        # any other way of writing the window (`try_into().unwrap()`, `expect`, a different product order): the five
+        # windows are evaluated (limb 4-i = BE64(ha[8i..8i+8]))
+        from ..rules_s import be_decode_exact
+        r_ = be_decode_exact(cx, 'gm_sm9::fields::mod_n_from_hash', nwords=5, cursor_form=False)
+        words_ok = r_ is not None and r_[0]
+    cx.add('F-HTR', 'words', words_ok,
            'exactly the first 40 bytes of Ha are read as 5 big-endian 64-bit words (bytes 8i..8i+8, i in 0..5): %s' % [FR.short(v_, 120) for _, v_ in limb_stores], fn.loc())
     cx.add('F-HTR', 'order', bool(limb_stores) and all(a_ == 'SubWithOverflow(4, %s).0' % I5 for a_, _ in limb_stores),
            'word i is stored at limb 4-i (most significant word first): %s' % [a_ for a_, _ in limb_stores], fn.loc())
